@@ -333,6 +333,8 @@ pub fn def_strategy(cfg: GenCfg) -> BoxedStrategy<DefSpec> {
         4 => Just(PrioMode::Default),
         4 => Just((1..=8usize).collect::<Vec<_>>()).prop_shuffle().prop_map(PrioMode::Distinct),
         2 => vec(prop::option::weighted(0.6, 1usize..=4), 8).prop_map(PrioMode::Mixed),
+        // distinct priorities spread over the whole range of usize (values that differ only above bit 32, below bit 16 ..)
+        1 => Just(vec![3usize, 70000, (1 << 32) + 1, (1 << 32) + 20, (1 << 33) + 9, 1 << 31, (1 << 32) - 1, 1 << 48]).prop_shuffle().prop_map(PrioMode::Distinct),
     ];
     // extension patterns: an existing pattern followed by a tail, as a skip or as another variant - the lexer has to carry an
     // earlier accept (the shorter pattern) through states of the longer one and fall back to it
@@ -457,7 +459,11 @@ pub fn conflict_defs() -> BoxedStrategy<DefSpec> {
     // after it are read case-sensitively (or case-insensitively) as written
     let flagged = (tiny_ast(false), select(vec!["(?i)", "(?i)", "(?-i)", "(?s)", "(?x)"])).prop_map(|(a, f)| PatSpec::regex(LitSpec::str(format!("{f}{}", a.text()))));
     let pat = prop_oneof![8 => pat, 1 => flagged];
-    let prio = prop::option::weighted(0.5, 1usize..=4);
+    let prio = prop_oneof![
+        10 => prop::option::weighted(0.5, 1usize..=4),
+        // priorities that are equal or different only beyond bit 32 / bit 16
+        1 => select(vec![Some(2usize), Some((1 << 32) + 2), Some((1 << 33) + 2), Some(65536 + 2), Some(1 << 32), Some(usize::MAX)]),
+    ];
     // number of leading patterns that become skips: ties among skips only, between a skip and a token, among tokens
     let n_skips = prop_oneof![6 => Just(0usize), 2 => Just(1usize), 2 => Just(2usize), 1 => Just(3usize)];
     (vec((pat, prio), 2..=6), n_skips, any::<bool>(), prop::option::weighted(0.25, any::<u8>()), vec(prop::bool::weighted(0.25), 6))
